@@ -11,4 +11,5 @@ CONSTANTS
   Instants <- MCInstants
   OrderPids <- MCAllPids
   CashOps = TRUE
+  BadQuotes = FALSE
 CHECK_DEADLOCK FALSE
